@@ -52,6 +52,24 @@ Fixpoint lwf (m : ms) : Prop :=
   | _ => True
   end.
 
+(* selectors of d: / or_i are exactly 01 / empty only under MINIMALIF (segwit v0, tapscript); under the base
+   signature version any true / false value selects, so these two fragments are malleable there (the library's
+   Legacy / Bare contexts reject them: MalleableDupIf, MalleableOrI) *)
+Fixpoint ifsafe (mi : bool) (m : ms) : Prop :=
+  match m with
+  | MDupIf x => mi = true /\ ifsafe mi x
+  | MOrI x y => mi = true /\ ifsafe mi x /\ ifsafe mi y
+  | MAlt x | MSwap x | MCheck x | MVerify x | MNonZero x | MZeroNotEqual x => ifsafe mi x
+  | MAndV x y | MAndB x y | MOrB x y | MOrD x y | MOrC x y => ifsafe mi x /\ ifsafe mi y
+  | MAndOr a b c => ifsafe mi a /\ ifsafe mi b /\ ifsafe mi c
+  | MThresh _ xs => (fix go (l : list ms) : Prop := match l with [] => True | x :: r => ifsafe mi x /\ go r end) xs
+  | _ => True
+  end.
+Lemma ifsafe_true : forall m, ifsafe true m.
+Proof.
+  induction m using ms_ind'; cbn [ifsafe]; try tauto. induction H as [|x r Hx Hr IH]; [exact I | split; assumption].
+Qed.
+
 Section Script.
   Variable e : env.
   Variable ke : keyenv.
@@ -64,7 +82,6 @@ Section Script.
   Hypothesis Hrel_unit : forall t1 t2, se_older se t1 = true -> se_older se t2 = true ->
     Bool.eqb (rel_is_time t1) (rel_is_time t2) = true.
   (* environment *)
-  Hypothesis HMIF : minimalif (e_sv e) = true.
   (* the honest party's lock view is the environment's, for lock values in range *)
   Hypothesis Hlock_a : forall t, (0 < t < 2147483648)%N -> a_after A t = check_locktime e (Z.of_N t).
   Hypothesis Hlock_o : forall t, (0 < t < 2147483648)%N -> a_older A t = check_sequence e (Z.of_N t).
@@ -99,9 +116,9 @@ Section Script.
   Lemma incl_app_right (K1 K2 : list key) : incl K2 (K1 ++ K2).
   Proof. intros k Hk. apply in_or_app. right. exact Hk. Qed.
 
-  Lemma mif v b : if_cond e v = Some b -> v = bool_bytes b.
+  Lemma mif v b : minimalif (e_sv e) = true -> if_cond e v = Some b -> v = bool_bytes b.
   Proof.
-    unfold if_cond. rewrite HMIF. destruct v as [|x r]; [intros H; inversion H; reflexivity|].
+    intros HMIF. unfold if_cond. rewrite HMIF. destruct v as [|x r]; [intros H; inversion H; reflexivity|].
     destruct x as [|p]; try discriminate. destruct p; try discriminate. destruct r; try discriminate.
     intros H. inversion H. reflexivity.
   Qed.
@@ -1038,12 +1055,12 @@ Section Script.
     - lia.
   Qed.
 
-  Ltac bin_start IH1 IH2 Ht Hwf Hlw Hnd Hin Hnm lemnm :=
-    apply type2 in Ht; destruct Ht as [tx [ty [Hx [Hy Hc]]]]; apply lift2_mall in Hc; unfold FInv; rewrite Hc in *; destruct Hwf as [W1 W2]; destruct Hlw as [L1 L2];
+  Ltac bin_start IH1 IH2 Ht Hwf Hlw Hif Hnd Hin Hnm lemnm :=
+    apply type2 in Ht; destruct Ht as [tx [ty [Hx [Hy Hc]]]]; apply lift2_mall in Hc; unfold FInv; rewrite Hc in *; destruct Hwf as [W1 W2]; destruct Hlw as [L1 L2]; destruct Hif as [I1 I2];
     cbn [ukeys] in Hnd, Hin |- *; destruct (nodup_app_disj _ _ Hnd) as [N1 [N2 D]];
     destruct (lemnm (t_mall tx) (t_mall ty) Hnm) as [Nx Ny];
-    pose proof (IH1 W1 L1 N1 (fun k Hk => Hin k (in_or_app _ _ k (or_introl Hk))) tx Hx Nx) as F1;
-    pose proof (IH2 W2 L2 N2 (fun k Hk => Hin k (in_or_app _ _ k (or_intror Hk))) ty Hy Ny) as F2;
+    pose proof (IH1 W1 L1 I1 N1 (fun k Hk => Hin k (in_or_app _ _ k (or_introl Hk))) tx Hx Nx) as F1;
+    pose proof (IH2 W2 L2 I2 N2 (fun k Hk => Hin k (in_or_app _ _ k (or_intror Hk))) ty Hy Ny) as F2;
     pose proof (stat_of_uinv _ _ _ _ _ (uniq_inv ke A se f L Habs_unit Hrel_unit Hksort rhs _ W1 N1 tx Hx) Nx) as S1;
     pose proof (stat_of_uinv _ _ _ _ _ (uniq_inv ke A se f L Habs_unit Hrel_unit Hksort rhs _ W2 N2 ty Hy) Ny) as S2;
     unfold FInv, NonMallUniqueThresh.usd in F1, F2 |- *; cbn [sat_dissat];
@@ -1052,10 +1069,10 @@ Section Script.
   Ltac un1 Ht Hwf Hnd Hin IH :=
     apply type1 in Ht; destruct Ht as [tx [Hx Hc]]; apply lift1_mall in Hc; unfold FInv; rewrite Hc in *.
 
-  Theorem script_inv : forall m, uwf m -> lwf m -> NoDup (ukeys m) -> incl (ukeys m) Ktop ->
+  Theorem script_inv : forall m, uwf m -> lwf m -> ifsafe (minimalif (e_sv e)) m -> NoDup (ukeys m) -> incl (ukeys m) Ktop ->
     forall t, type_of m = ROk t -> m_nm (t_mall t) = true -> FInv m t.
   Proof.
-    induction m using ms_ind'; intros Hwf Hlw Hnd Hin t0 Ht Hnm; cbn [uwf lwf type_of] in *.
+    induction m using ms_ind'; intros Hwf Hlw Hif Hnd Hin t0 Ht Hnm; cbn [uwf lwf ifsafe type_of] in *.
     - (* 1 *) inversion Ht; subst. exact ft_true.
     - (* 0 *) inversion Ht; subst. exact ft_false.
     - (* pk_k *) inversion Ht; subst. exact (ft_pk_k k (Hin k (or_introl eq_refl))).
@@ -1071,38 +1088,38 @@ Section Script.
     - inversion Ht; subst. apply (ft_hash HHash256 h). intros w [v [x [-> [Hl [_ [Hh _]]]]]]. exists x. auto.
     - inversion Ht; subst. apply (ft_hash HRipemd160 h). intros w [v [x [-> [Hl [_ [Hh _]]]]]]. exists x. auto.
     - inversion Ht; subst. apply (ft_hash HHash160 h). intros w [v [x [-> [Hl [_ [Hh _]]]]]]. exists x. auto.
-    - (* a *) un1 Ht Hwf Hnd Hin IHm. exact (IHm Hwf Hlw Hnd Hin tx Hx Hnm).
-    - (* s *) un1 Ht Hwf Hnd Hin IHm. exact (IHm Hwf Hlw Hnd Hin tx Hx Hnm).
-    - (* c *) un1 Ht Hwf Hnd Hin IHm. pose proof (IHm Hwf Hlw Hnd Hin tx Hx Hnm) as F. revert F. unfold FInv. apply finv_sub.
+    - (* a *) un1 Ht Hwf Hnd Hin IHm. exact (IHm Hwf Hlw Hif Hnd Hin tx Hx Hnm).
+    - (* s *) un1 Ht Hwf Hnd Hin IHm. exact (IHm Hwf Hlw Hif Hnd Hin tx Hx Hnm).
+    - (* c *) un1 Ht Hwf Hnd Hin IHm. pose proof (IHm Hwf Hlw Hif Hnd Hin tx Hx Hnm) as F. revert F. unfold FInv. apply finv_sub.
       + intros w [v [_ [key H]]]. exists key. exact H.
       + intros w [v [_ [key H]]]. exists key. exact H.
-    - (* d *) un1 Ht Hwf Hnd Hin IHm. assert (Nx : m_nm (t_mall tx) = true) by (destruct (t_mall tx); exact Hnm).
-      pose proof (IHm Hwf Hlw Hnd Hin tx Hx Nx) as F.
+    - (* d *) destruct Hif as [Hmi Hif]. un1 Ht Hwf Hnd Hin IHm. assert (Nx : m_nm (t_mall tx) = true) by (destruct (t_mall tx); exact Hnm).
+      pose proof (IHm Hwf Hlw Hif Hnd Hin tx Hx Nx) as F.
       pose proof (stat_of_uinv _ _ _ _ _ (uniq_inv ke A se f L Habs_unit Hrel_unit Hksort rhs _ Hwf Hnd tx Hx) Nx) as S.
       unfold FInv, NonMallUniqueThresh.usd in F |- *. cbn [sat_dissat ukeys]. destruct (sat_dissat ke se false rhs m) as [d0 sub].
       refine (finv_sub _ _ _ _ _ _ _ _ _ (ft_dupif _ (d0, sub) _ _ _ S F)).
-      + intros w [v [-> [Hc' _]]]. rewrite (mif v false Hc'). reflexivity.
-      + intros w [v [-> [Hc' [Hs _]]]]. rewrite (mif v true Hc'). exists []. split; [reflexivity|]. exists []. exact (Hs eq_refl).
+      + intros w [v [-> [Hc' _]]]. rewrite (mif v false Hmi Hc'). reflexivity.
+      + intros w [v [-> [Hc' [Hs _]]]]. rewrite (mif v true Hmi Hc'). exists []. split; [reflexivity|]. exists []. exact (Hs eq_refl).
     - (* v *) un1 Ht Hwf Hnd Hin IHm. assert (Nx : m_nm (t_mall tx) = true) by (destruct (t_mall tx); exact Hnm).
-      pose proof (IHm Hwf Hlw Hnd Hin tx Hx Nx) as F. unfold FInv, NonMallUniqueThresh.usd in F |- *. cbn [sat_dissat ukeys].
+      pose proof (IHm Hwf Hlw Hif Hnd Hin tx Hx Nx) as F. unfold FInv, NonMallUniqueThresh.usd in F |- *. cbn [sat_dissat ukeys].
       destruct (sat_dissat ke se false rhs m) as [d0 sub].
       refine (finv_sub _ _ _ _ _ _ _ _ _ (ft_verify _ (d0, sub) _ _ _ F)).
       + intros w [v [H _]]. discriminate.
       + intros w [v [_ [_ [v' H]]]]. exists v'. exact H.
     - (* j *) un1 Ht Hwf Hnd Hin IHm. assert (Nx : m_nm (t_mall tx) = true) by (destruct (t_mall tx); exact Hnm).
-      pose proof (IHm Hwf Hlw Hnd Hin tx Hx Nx) as F. unfold FInv, NonMallUniqueThresh.usd in F |- *. cbn [sat_dissat ukeys].
+      pose proof (IHm Hwf Hlw Hif Hnd Hin tx Hx Nx) as F. unfold FInv, NonMallUniqueThresh.usd in F |- *. cbn [sat_dissat ukeys].
       destruct (sat_dissat ke se false rhs m) as [d0 sub].
       refine (finv_sub _ _ _ _ _ _ _ _ _ (ft_nonzero _ (d0, sub) _ _ _ F)).
       + intros w [v [[_ [-> _]]|[a [r [_ [_ [_ [H _]]]]]]]]; [left; reflexivity | right; exists v; exact H].
       + intros w [v [[H _]|[a [r [_ [_ [_ [H _]]]]]]]]; [discriminate | exists v; exact H].
-    - (* n *) un1 Ht Hwf Hnd Hin IHm. pose proof (IHm Hwf Hlw Hnd Hin tx Hx Hnm) as F. revert F. unfold FInv. apply finv_sub.
+    - (* n *) un1 Ht Hwf Hnd Hin IHm. pose proof (IHm Hwf Hlw Hif Hnd Hin tx Hx Hnm) as F. revert F. unfold FInv. apply finv_sub.
       + intros w [v [_ [v' [H _]]]]. exists v'. exact H.
       + intros w [v [_ [v' [H _]]]]. exists v'. exact H.
-    - (* and_v *) bin_start IHm1 IHm2 Ht Hwf Hlw Hnd Hin Hnm nmc_and_v.
+    - (* and_v *) bin_start IHm1 IHm2 Ht Hwf Hlw Hif Hnd Hin Hnm nmc_and_v.
       refine (finv_sub _ _ _ _ _ _ _ _ _ (ft_and_v _ _ (ld, ls) (rd, rs) _ _ _ _ _ _ D S1 S2 F1 F2)).
       + intros w [v [wx [wy [-> [H1 H2]]]]]. exists wx, wy. split; [reflexivity|]. split; [exists []; exact H1 | exists v; exact H2].
       + intros w [v [wx [wy [-> [H1 H2]]]]]. exists wx, wy. split; [reflexivity|]. split; [exists []; exact H1 | exists v; exact H2].
-    - (* and_b *) bin_start IHm1 IHm2 Ht Hwf Hlw Hnd Hin Hnm nmc_and_b.
+    - (* and_b *) bin_start IHm1 IHm2 Ht Hwf Hlw Hif Hnd Hin Hnm nmc_and_b.
       refine (finv_sub _ _ _ _ _ _ _ _ _ (ft_and_b _ _ (ld, ls) (rd, rs) _ _ _ _ _ _ D S1 S2 F1 F2)).
       + intros w [v [wx [wy [vx [vy [sx [sy [-> [H1 [H2 [_ [_ [Es _]]]]]]]]]]]]].
         destruct sx, sy; try discriminate.
@@ -1112,7 +1129,7 @@ Section Script.
       + intros w [v [wx [wy [vx [vy [sx [sy [-> [H1 [H2 [_ [_ [Es _]]]]]]]]]]]]].
         destruct sx, sy; try discriminate. exists wx, wy. split; [reflexivity|]. split; [exists vx; exact H1 | exists vy; exact H2].
     - (* andor *) apply rbind_ok in Ht. destruct Ht as [ta [Ha Ht]]. apply rbind_ok in Ht. destruct Ht as [tb [Hb Ht]]. apply rbind_ok in Ht. destruct Ht as [tc [Hc Ht]].
-      apply and_or_mall in Ht. unfold FInv. rewrite Ht in *. destruct Hwf as [W1 [W2 W3]]. destruct Hlw as [L1 [L2 L3]]. cbn [ukeys] in Hnd, Hin |- *.
+      apply and_or_mall in Ht. unfold FInv. rewrite Ht in *. destruct Hwf as [W1 [W2 W3]]. destruct Hlw as [L1 [L2 L3]]. destruct Hif as [I1' [I2' I3']]. cbn [ukeys] in Hnd, Hin |- *.
       destruct (nodup_app_disj _ _ Hnd) as [N1 [N23 D1]]. destruct (nodup_app_disj _ _ N23) as [N2 [N3 D23]].
       assert (Dab : disj (ukeys m1) (ukeys m2)) by (intros k H1 H2; apply (D1 k H1); apply in_or_app; left; exact H2).
       assert (Dac : disj (ukeys m1) (ukeys m3)) by (intros k H1 H2; apply (D1 k H1); apply in_or_app; right; exact H2).
@@ -1120,7 +1137,7 @@ Section Script.
       assert (I1 : incl (ukeys m1) Ktop) by (intros k Hk; apply Hin; apply in_or_app; left; exact Hk).
       assert (I2 : incl (ukeys m2) Ktop) by (intros k Hk; apply Hin; apply in_or_app; right; apply in_or_app; left; exact Hk).
       assert (I3 : incl (ukeys m3) Ktop) by (intros k Hk; apply Hin; apply in_or_app; right; apply in_or_app; right; exact Hk).
-      pose proof (IHm1 W1 L1 N1 I1 ta Ha Na) as F1. pose proof (IHm2 W2 L2 N2 I2 tb Hb Nb) as F2. pose proof (IHm3 W3 L3 N3 I3 tc Hc Nc) as F3.
+      pose proof (IHm1 W1 L1 I1' N1 I1 ta Ha Na) as F1. pose proof (IHm2 W2 L2 I2' N2 I2 tb Hb Nb) as F2. pose proof (IHm3 W3 L3 I3' N3 I3 tc Hc Nc) as F3.
       pose proof (stat_of_uinv _ _ _ _ _ (uniq_inv ke A se f L Habs_unit Hrel_unit Hksort rhs _ W1 N1 ta Ha) Na) as S1.
       pose proof (stat_of_uinv _ _ _ _ _ (uniq_inv ke A se f L Habs_unit Hrel_unit Hksort rhs _ W2 N2 tb Hb) Nb) as S2.
       pose proof (stat_of_uinv _ _ _ _ _ (uniq_inv ke A se f L Habs_unit Hrel_unit Hksort rhs _ W3 N3 tc Hc) Nc) as S3.
@@ -1133,7 +1150,7 @@ Section Script.
       + intros w [v [wa [w' [va [-> [[H1 [_ [H2 _]]]|[H1 [_ H2]]]]]]]].
         * left. exists wa, w'. split; [reflexivity|]. split; [exists va; exact H1 | exists v; exact H2].
         * right. exists wa, w'. split; [reflexivity|]. split; [exists va; exact H1 | exists v; exact H2].
-    - (* or_b *) bin_start IHm1 IHm2 Ht Hwf Hlw Hnd Hin Hnm nmc_or_b.
+    - (* or_b *) bin_start IHm1 IHm2 Ht Hwf Hlw Hif Hnd Hin Hnm nmc_or_b.
       refine (finv_sub _ _ _ _ _ _ _ _ _ (ft_or_b _ _ (ld, ls) (rd, rs) _ _ _ _ _ _ D S1 S2 F1 F2 Hnm)).
       + intros w [v [wx [wy [vx [vy [sx [sy [-> [H1 [H2 [_ [_ [Es _]]]]]]]]]]]]].
         destruct sx, sy; try discriminate. exists wx, wy. split; [reflexivity|]. split; [exists vx; exact H1 | exists vy; exact H2].
@@ -1142,21 +1159,21 @@ Section Script.
         * right. exists wx, wy. split; [reflexivity|]. split; [exists vx; exact H1 | exists vy; exact H2].
         * left. right. exists wx, wy. split; [reflexivity|]. split; [exists vx; exact H1 | exists vy; exact H2].
         * left. left. exists wx, wy. split; [reflexivity|]. split; [exists vx; exact H1 | exists vy; exact H2].
-    - (* or_d *) bin_start IHm1 IHm2 Ht Hwf Hlw Hnd Hin Hnm nmc_or_d.
+    - (* or_d *) bin_start IHm1 IHm2 Ht Hwf Hlw Hif Hnd Hin Hnm nmc_or_d.
       refine (finv_sub _ _ _ _ _ _ _ _ _ (ft_or_d _ _ (ld, ls) (rd, rs) _ _ _ _ _ _ D S1 S2 F1 F2 Hnm)).
       + intros w [v [[H _]|[wx [wy [vx [-> [H1 [_ H2]]]]]]]]; [discriminate|].
         exists wx, wy. split; [reflexivity|]. split; [exists vx; exact H1 | exists v; exact H2].
       + intros w [v [[_ [H _]]|[wx [wy [vx [-> [H1 [_ H2]]]]]]]]; [left; exists v; exact H|].
         right. exists wx, wy. split; [reflexivity|]. split; [exists vx; exact H1 | exists v; exact H2].
-    - (* or_c *) bin_start IHm1 IHm2 Ht Hwf Hlw Hnd Hin Hnm nmc_or_c.
+    - (* or_c *) bin_start IHm1 IHm2 Ht Hwf Hlw Hif Hnd Hin Hnm nmc_or_c.
       refine (finv_sub _ _ _ _ _ _ _ _ _ (ft_or_c _ _ (ld, ls) (rd, rs) _ _ _ _ _ _ D S1 S2 F1 F2 Hnm)).
       + intros w [v [H _]]. discriminate.
       + intros w [v [_ [_ [[vx [H _]]|[wx [wy [vx [-> [H1 [_ H2]]]]]]]]]]; [left; exists vx; exact H|].
         right. exists wx, wy. split; [reflexivity|]. split; [exists vx; exact H1 | exists []; exact H2].
-    - (* or_i *) bin_start IHm1 IHm2 Ht Hwf Hlw Hnd Hin Hnm nmc_or_i.
+    - (* or_i *) destruct Hif as [Hmi Hif]. bin_start IHm1 IHm2 Ht Hwf Hlw Hif Hnd Hin Hnm nmc_or_i.
       refine (finv_sub _ _ _ _ _ _ _ _ _ (ft_or_i _ _ (ld, ls) (rd, rs) _ _ _ _ _ _ D S1 S2 F1 F2)).
-      + intros w [v [sel [w' [b [-> [Hc' [H _]]]]]]]. rewrite (mif sel b Hc'). destruct b; [left | right]; (exists w'; split; [reflexivity | exists v; exact H]).
-      + intros w [v [sel [w' [b [-> [Hc' [H _]]]]]]]. rewrite (mif sel b Hc'). destruct b; [left | right]; (exists w'; split; [reflexivity | exists v; exact H]).
+      + intros w [v [sel [w' [b [-> [Hc' [H _]]]]]]]. rewrite (mif sel b Hmi Hc'). destruct b; [left | right]; (exists w'; split; [reflexivity | exists v; exact H]).
+      + intros w [v [sel [w' [b [-> [Hc' [H _]]]]]]]. rewrite (mif sel b Hmi Hc'). destruct b; [left | right]; (exists w'; split; [reflexivity | exists v; exact H]).
     - (* thresh *) destruct Hwf as [Hk Hwf]. apply rbind_ok in Ht. destruct Ht as [ts [Hts Ht]].
       apply (tys_of_ok xs ts) in Hts. apply threshold_mall in Ht. unfold FInv. rewrite Ht in *. clear Ht.
       cbn [ukeys] in Hnd, Hin |- *. destruct (Forall2_ix _ _ _ MTrue dty Hts) as [Hlen Hty].
@@ -1178,12 +1195,15 @@ Section Script.
       assert (Hlwi : forall i, (i < n)%nat -> lwf (nth i xs MTrue)).
       { intros i Hi. assert (Hin' : In (nth i xs MTrue) xs) by (apply nth_In, Hi). revert Hin'. generalize (nth i xs MTrue). clear -Hlw. intros y Hy.
         induction xs as [|x r IH]; [contradiction|]. destruct Hlw as [W1 W2]. destruct Hy as [<-|Hy]; [exact W1 | apply IH; assumption]. }
+      assert (Hifi : forall i, (i < n)%nat -> ifsafe (minimalif (e_sv e)) (nth i xs MTrue)).
+      { intros i Hi. assert (Hin' : In (nth i xs MTrue) xs) by (apply nth_In, Hi). revert Hin'. generalize (nth i xs MTrue). clear -Hif. intros y Hy.
+        induction xs as [|x r IH]; [contradiction|]. destruct Hif as [W1 W2]. destruct Hy as [<-|Hy]; [exact W1 | apply IH; assumption]. }
       assert (Hndi : forall i, (i < n)%nat -> NoDup (ukeys (nth i xs MTrue))).
       { intros i Hi. rewrite Forall_forall in HNd. apply HNd. apply in_map. apply nth_In, Hi. }
       assert (Hini : forall i, (i < n)%nat -> incl (ukeys (nth i xs MTrue)) Ktop).
       { intros i Hi k0 Hk0. apply Hin. exact (tu_keys_in xs i Hi k0 Hk0). }
       assert (HF : forall i (Hi : (i < n)%nat), FInv (nth i xs MTrue) (nth i ts dty)).
-      { intros i Hi. rewrite Forall_forall in H. apply (H _ (nth_In xs MTrue Hi) (Hwfi i Hi) (Hlwi i Hi) (Hndi i Hi) (Hini i Hi) _ (Hty i Hi)). apply (G i Hi). }
+      { intros i Hi. rewrite Forall_forall in H. apply (H _ (nth_In xs MTrue Hi) (Hwfi i Hi) (Hlwi i Hi) (Hifi i Hi) (Hndi i Hi) (Hini i Hi) _ (Hty i Hi)). apply (G i Hi). }
       assert (HU : forall i (Hi : (i < n)%nat), uinv A se f (ukeys (nth i xs MTrue)) (usd (nth i xs MTrue))
                      (fun B => all_dsat ke B (nth i xs MTrue)) (fun B => all_sat ke B (nth i xs MTrue)) (t_mall (nth i ts dty))).
       { intros i Hi. exact (uniq_inv ke A se f L Habs_unit Hrel_unit Hksort rhs _ (Hwfi i Hi) (Hndi i Hi) _ (Hty i Hi)). }
